@@ -599,7 +599,14 @@ func (h *handler) resetStream(rpc *goatorepo.Rpc) error {
 		reset.Header.ProxyNext = rpc.Header.ProxyRecord[0 : len(rpc.Header.ProxyRecord)-1]
 	}
 
-	return h.rw.Write(h.ctx, reset)
+	// Go through the connection's single writer so that the reset cannot
+	// overtake a trailer that the same stream has already queued.
+	select {
+	case h.writeChan <- reset:
+		return nil
+	case <-h.ctx.Done():
+		return context.Cause(h.ctx)
+	}
 }
 
 // contextFromHeaders returns a new incoming context with metadata populated
